@@ -15,9 +15,10 @@ RULE = ("pairs of files (valid root chains in OpenPGP mode, valid delegations, e
         "signatures, undelegated role, type mismatch; malformed metadata; not JSON; missing files; wrong argument counts) run as real processes through "
         "each of the three entry points (console script regenerated from the current pyproject.toml, python -m conda_content_trust, python -m "
         "conda_content_trust.cli); sign-artifacts with good / bad / decorated key files and good / bad repodata; gpg-sign without its optional "
-        "dependency.  Observables: exit status, success line on stdout, file bytes.  non-trivial = a run whose files both parse; distinct by (entry point, files)")
+        "dependency; gpg-sign and gpg-key-lookup with the dependency stood in for by a signer with outputs fixed per case (fingerprint spellings, raising signer, "
+        "unknown key, broken / missing / re-laid-out files).  Observables: exit status, success line on stdout, file bytes.  non-trivial = a run whose files both parse; distinct by (entry point, files)")
 
-THEOREMS = ["exit_zero_iff", "verify_codes", "sign_zero_only_if_signed", "sign_bad_key_untouched"]
+THEOREMS = ["exit_zero_iff", "verify_codes", "sign_zero_only_if_signed", "sign_bad_key_untouched", "gpg_sign_zero_iff_signed", "gpg_commands_need_dependency", "gpg_sign_end_to_end"]
 
 REPO = os.environ.get("CCT_REPO", "/repo")
 ENTRY_POINTS = ["script", "modulePkg", "moduleCli"]
@@ -36,8 +37,17 @@ def make_console_script(d: str) -> str:
     return path
 
 
-def run_ep(ep: str, script: str, args: list[str], cwd: str, ioenc: str = "utf-8"):
+SITECUSTOM = os.path.join(os.path.dirname(os.path.dirname(os.path.dirname(os.path.abspath(__file__)))), "sitecustom")
+
+
+def run_ep(ep: str, script: str, args: list[str], cwd: str, ioenc: str = "utf-8", canned: dict | None = None):
     env = dict(os.environ, PYTHONPATH=REPO, PYTHONDONTWRITEBYTECODE="1", PYTHONIOENCODING=ioenc)
+    env.pop("CCTV_GPG_CANNED", None)
+    if canned is not None:
+        # the optional dependency stood in for by a signer with fixed outputs (harness/sitecustom/sitecustomize.py)
+        import json as _json
+        env["PYTHONPATH"] = REPO + os.pathsep + SITECUSTOM
+        env["CCTV_GPG_CANNED"] = _json.dumps(canned)
     if ep == "script":
         cmd = [sys.executable, script] + args
     elif ep == "modulePkg":
@@ -260,3 +270,99 @@ def run(ck: Check) -> None:
         ck.count(f"gpg-sign-no-dependency:exit{rc}")
         if rc == 0 or open(gf, "rb").read() != gb:
             ck.violation("gpg-sign without the optional dependency exited zero or modified the file", {"entry_point": ep, "exit": rc}, f"cli-gpg-sign:{ep}:exit{rc}")
+
+    # gpg-sign / gpg-key-lookup with the dependency present (signer outputs fixed per case): status zero iff the file was signed, and then the
+    # file is exactly what the library's GPG path produces; any failure leaves the file as it was
+    from .. import jsontext
+    import random as _random
+    FPR = "f075dd2f6f4cb3bd76134bbb81b6ca16ef9cd589"
+    spellings = [FPR, FPR.upper(), "F075 DD2F 6F4C B3BD 7613  4BBB 81B6 CA16 EF9C D589", " " + FPR + "\n", "f075\xa0dd2f6f4cb3bd76134bbb81b6ca16ef9cd589", "\u2003" + FPR.upper()]
+    bad_fprs = [FPR[:-1], FPR + "0", "0x" + FPR, FPR[:-1] + "g", "", "\uff26" + FPR[1:]]
+    gjobs, glines = [], []
+    for gi in range(ck.n(30, 10)):
+        sk = gen.key(rng.randrange(10))
+        payload = gen.root_md([sk], 1, [gen.key(7)], 1, version=gi + 1) if gi % 2 else envgen.payload(rng)
+        env0 = gen.envelope(payload)
+        if rng.random() < 0.5:
+            gen.sign_env(env0, [gen.key(rng.randrange(10))], rng.random() < 0.5, rng)
+        hdr = gen.rand_hdr(rng)
+        oh, sg, q = hdr.hex(), sk.sign(gen.gpg_digest(gen.oracle_bytes(payload), hdr)).hex(), sk.hex
+        kind = ["good", "good", "good", "bad-fpr", "signer-raises", "no-key", "file-not-json", "file-missing", "file-not-envelope", "relaid"][gi % 10]
+        fb = gen.oracle_bytes(env0)
+        fpr = rng.choice(spellings)
+        canned = {"oh": oh, "sg": sg, "q": q}
+        if kind == "bad-fpr":
+            fpr = rng.choice(bad_fprs)
+        elif kind == "signer-raises":
+            canned = {"oh": None, "sg": None, "q": q}
+        elif kind == "no-key":
+            canned = {"oh": oh, "sg": sg, "q": None}
+        elif kind == "file-not-json":
+            fb = b"{ not json"
+        elif kind == "file-missing":
+            fb = None
+        elif kind == "file-not-envelope":
+            fb = gen.oracle_bytes({"signed": payload})
+        elif kind == "relaid":
+            fb = jsontext.rand_text(_random.Random(gi), env0).encode("utf-8", "surrogatepass")
+        ep = ENTRY_POINTS[gi % 3]
+        gjobs.append((kind, ep, fb, fpr, canned, env0, sk))
+        def tok(v):
+            return proto.enc(v) if v is not None else "n"
+        glines.append(f"gpg clisign t {tok(canned['oh'])} {tok(canned['sg'])} {tok(canned['q'])} " + ("-" if fb is None else "x" + fb.hex()) + " " + proto.enc(fpr))
+        glines.append(f"gpg clilookup t {tok(canned['oh'])} {tok(canned['sg'])} {tok(canned['q'])} " + proto.enc(fpr))
+    gmodel = ck.driver.run(glines, list(range(len(glines))))
+    ck.correspondences.add("corr:cli-gpg-sign/exit-status+file")
+    for gi, (kind, ep, fb, fpr, canned, env0, sk) in enumerate(gjobs):
+        gf = os.path.join(d, f"gpgs{gi}.json")
+        if fb is None:
+            if os.path.exists(gf):
+                os.unlink(gf)
+        else:
+            with open(gf, "wb") as f:
+                f.write(fb)
+        rc, out, err = run_ep(ep, script, ["gpg-sign", fpr, gf], d, canned=canned)
+        after = open(gf, "rb").read() if os.path.exists(gf) else None
+        ck.evaluations += 1
+        ck.oracle_checks += 1
+        ck.count(f"gpg-sign:{kind}:exit{rc}")
+        ck.nontrivial_add(("gpg-sign", gi, kind))
+        signed_ok = False
+        if after is not None:
+            try:
+                import json as _json
+                o = _json.loads(after)
+                want = {"signatures": {**env0["signatures"], canned["q"]: {"other_headers": canned["oh"], "signature": canned["sg"]}}, "signed": env0["signed"]}
+                signed_ok = after == gen.oracle_bytes(want) and proto.deep_equal(o, want)
+            except Exception:
+                signed_ok = False
+        if rc == 0 and not signed_ok:
+            ck.violation("gpg-sign exited with status zero without having signed (entry filed under the key's raw public value, file canonical)", {"entry_point": ep, "case": kind, "fingerprint": fpr}, f"cli-gpg-zero-unsigned:{kind}")
+        if rc != 0 and after != fb:
+            ck.violation("gpg-sign failed but modified the file", {"entry_point": ep, "case": kind}, f"cli-gpg-failed-modified:{kind}")
+        if kind in ("good", "relaid") and rc != 0:
+            ck.violation("gpg-sign with a working signer and a well-formed file / fingerprint spelling did not sign", {"entry_point": ep, "fingerprint": fpr, "stderr": err[-300:]}, f"cli-gpg-good-failed:{kind}")
+        m = gmodel[2 * gi]
+        mexit = int(m.split("exit=")[1].split(" ")[0]) if "exit=" in m else -1
+        mfile = m.split("file=")[1] if "file=" in m else "?"
+        if mexit != rc or (mfile == "-") != (after is None) or (after is not None and mfile != after.hex()):
+            ck.mismatch_total += 1
+            kk = f"cli-gpg-sign:{kind}:impl={rc}:model={mexit}"
+            ck.mismatch_kinds[kk] = ck.mismatch_kinds.get(kk, 0) + 1
+            if len(ck.mismatches) < 12:
+                ck.mismatches.append({"corr": "corr:cli-gpg-sign/exit-status+file", "line": glines[2 * gi][:800], "impl": f"exit={rc} file={(after or b'').hex()[:200]}", "model": m[:300], "tag": kind, "meta": {"stderr": err[-200:]}, "stdout_encoding": "utf-8"})
+        # key lookup: status and the value printed
+        rc2, out2, err2 = run_ep(ep, script, ["gpg-key-lookup", fpr], d, canned=canned)
+        ck.evaluations += 1
+        m2 = gmodel[2 * gi + 1]
+        mexit2 = int(m2.split("exit=")[1].split(" ")[0]) if "exit=" in m2 else -1
+        mq = m2.split("q=")[1] if "q=" in m2 else "?"
+        printed = out2.strip().split(": ", 1)[1] if (rc2 == 0 and ": " in out2) else None
+        want_q = proto.dec(mq) if mq not in ("-", "?") else None
+        ck.count(f"gpg-key-lookup:exit{rc2}")
+        if mexit2 != rc2 or printed != want_q:
+            ck.mismatch_total += 1
+            kk = f"cli-gpg-key-lookup:{kind}:impl={rc2}:model={mexit2}"
+            ck.mismatch_kinds[kk] = ck.mismatch_kinds.get(kk, 0) + 1
+            if len(ck.mismatches) < 12:
+                ck.mismatches.append({"corr": "corr:cli-gpg-sign/exit-status+file", "line": glines[2 * gi + 1][:800], "impl": f"exit={rc2} printed={printed}", "model": m2[:300], "tag": "lookup:" + kind, "meta": {"stderr": err2[-200:]}, "stdout_encoding": "utf-8"})
